@@ -246,3 +246,36 @@ CHECKS["C17"] = dict(
           dict(name="real", pkg="./tun", go=GO, test="TestC17R", shards=(4, 8), checks=(60, 1200), timeout=(600, 3000)),
           dict(name="router", pkg="./rtr", go=GO, test="TestC17Router", shards=(4, 8), checks=(100, 2000), timeout=(600, 3000))],
 )
+
+CHECKS["C09"] = dict(
+    rule=("rapid-drawn plans over up to 5 connection epochs: resend 50 ms..1 s, timeout r..12r (+offsets), heartbeat interval either above "
+          "timeout+resend (exact accounting) or below the timeout (overlapping exchanges); one fate per connection-state request (OK "
+          "after a delay around 0/r/T, lost, any non-zero status, foreign channel, duplicated), one per connect request (OK, lost, busy "
+          "0x24/0x25, refused, junk), scripted disconnect requests/responses for the current or a foreign channel, unsolicited "
+          "connection-state responses, inbound requests, socket death, a few Sends, UDP and TCP. Non-trivial = history with a failed "
+          "heartbeat or a disconnect and an epoch change or termination; distinct by plan."),
+    level_text=("Sampled gateway behaviours on a fake clock against a reference model that predicts every ConnStateReq / ConnReq / DiscRes "
+                "(kind, channel, exact instant) from the frames the client took in, the instant of termination (Inbound closes then), "
+                "the channel and the restart of the sequence numbers after a reconnect, and failing Sends after termination."),
+    level_note="Trusted: the heartbeat/epoch model in harness/tun/c09_test.go. With overlapping exchanges (heartbeat < timeout) only exchange start times and the admissible resend schedules are checked (which exchange receives a response is not determined). Histories the model cannot resolve (a delivery exactly on a tick) are counted as inconclusive. Send racing a successful reconnect is outside the virtual-time discipline.",
+    technique="rapid model-based testing of generated gateway fate scripts under testing/synctest virtual time (reference heartbeat/reconnect model, exact instants)",
+    assumptions=_TUN_ASSUME,
+    jobs=[dict(name="bubble", pkg="./tun", go=GO126, test="TestC09B", shards=(4, 16), checks=(2500, 30000), timeout=(600, 3000))],
+)
+
+CHECKS["C10"] = dict(
+    rule=("fake clock: plans of the C03, C04 and C09 generators with one Close injected at a uniformly drawn instant (during a pending Send, "
+          "a heartbeat exchange, a reconnect, with deliveries parked, after the socket died), with and without a reader on Inbound, "
+          "followed by a second Close and a Send; real clock under the race detector: 1..6 free-running senders, inbound bursts, short "
+          "heartbeats, forced reconnects and 1..4 concurrent closers at drawn offsets. Non-trivial = Close landing while a Send, a "
+          "heartbeat exchange, a reconnect or a parked delivery was in progress; distinct by plan."),
+    level_text=("Sampled injection points and schedules. Fake clock: Close returns within the response timeout (at once when no reconnect is "
+                "under way), at most one disconnect request - exactly one if the socket was usable - Inbound closed and no telegram read "
+                "afterwards, Send after Close fails at once, no bubble goroutine left, no panic or deadlock. Real clock: Close returns, "
+                "no library goroutine after a grace poll, and any race-detector report fails the check."),
+    level_note="Trusted: synctest's goroutine accounting, the race detector. Race and leak freedom are shown for sampled schedules only. Concurrent closers run on the real clock only (a second closer waits on sync.Once, which the fake clock cannot run).",
+    technique="rapid fault injection of Close into generated histories under testing/synctest (goroutine accounting) + rapid concurrent schedules under the Go race detector",
+    assumptions=_TUN_ASSUME,
+    jobs=[dict(name="bubble", pkg="./tun", go=GO126, test="TestC10B", shards=(4, 16), checks=(2000, 25000), timeout=(600, 3000)),
+          dict(name="race", pkg="./tun", go=GO, test="TestC10R", race=True, shards=(4, 16), checks=(60, 1000), timeout=(600, 3000))],
+)
